@@ -917,8 +917,16 @@ def const_defs(consts, em, only=None, fold=False, tolerant=False):
     return "\n".join(out)
 
 
+PRELUDE_DEFS = """
+Definition wrap (n x : Z) : Z := x mod 2 ^ n.
+Definition bnot (n x : Z) : Z := 2 ^ n - 1 - x.
+Definition sext (n x : Z) : Z := if x <? 2 ^ (n - 1) then x else x - 2 ^ n.
+"""
+
+
 def gen(repo):
     files = {}
+    failed = {}
 
     def rd(rel):
         with open(os.path.join(repo, rel)) as f:
@@ -931,259 +939,284 @@ def gen(repo):
     deferred = rd('src/ebr_impl/deferred.rs')
 
     # ---------------- Params.v : shared prelude + HIGH_TAG_WIDTH + tuning constants
-    prelude = HEADER % "src/ebr_impl/pointers.rs, internal.rs, deferred.rs" + """
-Definition wrap (n x : Z) : Z := x mod 2 ^ n.
-Definition bnot (n x : Z) : Z := 2 ^ n - 1 - x.
-Definition sext (n x : Z) : Z := if x <? 2 ^ (n - 1) then x else x - 2 ^ n.
-"""
-    em0 = Emitter({}, {}, 'usize', [])
-    pc = [c for c in get_consts(pointers) if c[0] == 'HIGH_TAG_WIDTH']
-    if len(pc) != 1:
-        raise TranslateError("HIGH_TAG_WIDTH not found in pointers.rs")
-    params_v = prelude + "\n" + const_defs(pc, em0, fold=True) + "\n"
-    ic = {c[0]: c for c in get_consts(internal)}
-    register_consts(em0, get_consts(pointers) + get_consts(internal) + get_consts(deferred))
-    for need in ('MAX_OBJECTS', 'MANUAL_EVENTS_BETWEEN_COLLECT', 'COLLECTS_TRIALS', 'COUNTS_BETWEEN_ADVANCE'):
-        if need not in ic:
-            raise TranslateError("%s not found in internal.rs" % need)
-        params_v += const_defs([ic[need]], em0, fold=True) + "\n"
-    dc = {c[0]: c for c in get_consts(deferred)}
-    if 'DATA_WORDS' not in dc:
-        raise TranslateError("DATA_WORDS not found in deferred.rs")
-    params_v += const_defs([dc['DATA_WORDS']], em0, fold=True) + "\n"
-    # is_expired threshold
-    sb = get_fns(get_impl(internal, r"impl\s+SealedBag"))
-    if 'is_expired' not in sb:
-        raise TranslateError("SealedBag::is_expired not found")
-    m = re.fullmatch(r"\{\s*global_epoch\.wrapping_sub\(self\.epoch\)\s*>=\s*((?:\w+\s*::\s*)*\w+)\s*\}", sb['is_expired'][2].strip())
-    if not m:
-        raise TranslateError("is_expired body has an unexpected shape: %s" % sb['is_expired'][2])
-    params_v += "Definition EXPIRE_AFTER : Z := %s.\n" % resolve_int(m.group(1), em0, 'isize', "is_expired threshold")
-    files['Params.v'] = params_v
-
+    try:
+        prelude = HEADER % "src/ebr_impl/pointers.rs, internal.rs, deferred.rs" + PRELUDE_DEFS
+        em0 = Emitter({}, {}, 'usize', [])
+        pc = [c for c in get_consts(pointers) if c[0] == 'HIGH_TAG_WIDTH']
+        if len(pc) != 1:
+            raise TranslateError("HIGH_TAG_WIDTH not found in pointers.rs")
+        params_v = prelude + "\n" + const_defs(pc, em0, fold=True) + "\n"
+        ic = {c[0]: c for c in get_consts(internal)}
+        register_consts(em0, get_consts(pointers) + get_consts(internal) + get_consts(deferred))
+        for need in ('MAX_OBJECTS', 'MANUAL_EVENTS_BETWEEN_COLLECT', 'COLLECTS_TRIALS', 'COUNTS_BETWEEN_ADVANCE'):
+            if need not in ic:
+                raise TranslateError("%s not found in internal.rs" % need)
+            params_v += const_defs([ic[need]], em0, fold=True) + "\n"
+        dc = {c[0]: c for c in get_consts(deferred)}
+        if 'DATA_WORDS' not in dc:
+            raise TranslateError("DATA_WORDS not found in deferred.rs")
+        params_v += const_defs([dc['DATA_WORDS']], em0, fold=True) + "\n"
+        # is_expired threshold
+        sb = get_fns(get_impl(internal, r"impl\s+SealedBag"))
+        if 'is_expired' not in sb:
+            raise TranslateError("SealedBag::is_expired not found")
+        m = re.fullmatch(r"\{\s*global_epoch\.wrapping_sub\(self\.epoch\)\s*>=\s*((?:\w+\s*::\s*)*\w+)\s*\}", sb['is_expired'][2].strip())
+        if not m:
+            raise TranslateError("is_expired body has an unexpected shape: %s" % sb['is_expired'][2])
+        params_v += "Definition EXPIRE_AFTER : Z := %s.\n" % resolve_int(m.group(1), em0, 'isize', "is_expired threshold")
+        files['Params.v'] = params_v
+    except TranslateError as ex:
+        failed['Params.v'] = str(ex)
+    except (NameError, KeyError, UnboundLocalError) as ex:
+        failed['Params.v'] = 'depends on a part of the source that could not be translated (%s)' % ex
     # ---------------- StateW.v
-    uc = get_consts(utils)
-    names = [c[0] for c in uc]
-    for need in ('EPOCH_WIDTH', 'EPOCH_MASK_HEIGHT', 'EPOCH', 'DESTRUCTED', 'WEAKED', 'TOTAL_COUNT_WIDTH',
-                 'WEAK_WIDTH', 'STRONG_WIDTH', 'STRONG', 'WEAK', 'COUNT', 'WEAK_COUNT'):
-        if need not in names:
-            raise TranslateError("const %s not found in utils.rs" % need)
-    st_fns = get_fns(get_impl(utils, r"impl\s+State"))
-    sigs = {n: (v[0], v[1]) for n, v in st_fns.items()}
-    em = Emitter({'HIGH_TAG_WIDTH': 'u32'}, sigs, 'u64', ['inner'])
-    s = HEADER % "src/utils.rs (consts, impl State, RcInner::alloc)" + "Require Import Params.\n\n"
-    NEEDED = ('EPOCH_WIDTH', 'EPOCH_MASK_HEIGHT', 'EPOCH', 'DESTRUCTED', 'WEAKED', 'TOTAL_COUNT_WIDTH',
-              'WEAK_WIDTH', 'STRONG_WIDTH', 'STRONG', 'WEAK', 'COUNT', 'WEAK_COUNT')
-    s += const_defs(uc, em, only=NEEDED) + "\n\n"
-    # any other constant of the file (also associated / function-local ones) is inlined where it is used
-    em.all_consts.update({c[0]: (c[1], c[2]) for c in uc if c[0] not in NEEDED})
-    order = ['from_raw', 'epoch', 'strong', 'weak', 'destructed', 'weaked', 'with_epoch', 'add_strong',
-             'sub_strong', 'add_weak', 'with_destructed', 'with_weaked', 'as_raw']
-    s += translate_fns(st_fns, order, em, None) + "\n\n"
-    # alloc's initial word
-    m = re.search(r"state:\s*AtomicU64::new\(([^;]*?)\),\s*\}", utils)
-    if not m:
-        raise TranslateError("RcInner::alloc initial word not found")
-    ast = P(tokenize(m.group(1))).parse_expr()
-    w, _ = em.emit(ast, {'init_strong': 'u32'}, 'u64')
-    s += "Definition alloc_word (init_strong : Z) : Z :=\n  %s.\n" % w
-    files['StateW.v'] = s
-
+    try:
+        uc = get_consts(utils)
+        names = [c[0] for c in uc]
+        for need in ('EPOCH_WIDTH', 'EPOCH_MASK_HEIGHT', 'EPOCH', 'DESTRUCTED', 'WEAKED', 'TOTAL_COUNT_WIDTH',
+                     'WEAK_WIDTH', 'STRONG_WIDTH', 'STRONG', 'WEAK', 'COUNT', 'WEAK_COUNT'):
+            if need not in names:
+                raise TranslateError("const %s not found in utils.rs" % need)
+        st_fns = get_fns(get_impl(utils, r"impl\s+State"))
+        sigs = {n: (v[0], v[1]) for n, v in st_fns.items()}
+        em = Emitter({'HIGH_TAG_WIDTH': 'u32'}, sigs, 'u64', ['inner'])
+        s = HEADER % "src/utils.rs (consts, impl State, RcInner::alloc)" + "Require Import Params.\n\n"
+        NEEDED = ('EPOCH_WIDTH', 'EPOCH_MASK_HEIGHT', 'EPOCH', 'DESTRUCTED', 'WEAKED', 'TOTAL_COUNT_WIDTH',
+                  'WEAK_WIDTH', 'STRONG_WIDTH', 'STRONG', 'WEAK', 'COUNT', 'WEAK_COUNT')
+        s += const_defs(uc, em, only=NEEDED) + "\n\n"
+        # any other constant of the file (also associated / function-local ones) is inlined where it is used
+        em.all_consts.update({c[0]: (c[1], c[2]) for c in uc if c[0] not in NEEDED})
+        order = ['from_raw', 'epoch', 'strong', 'weak', 'destructed', 'weaked', 'with_epoch', 'add_strong',
+                 'sub_strong', 'add_weak', 'with_destructed', 'with_weaked', 'as_raw']
+        s += translate_fns(st_fns, order, em, None) + "\n\n"
+        # alloc's initial word
+        m = re.search(r"state:\s*AtomicU64::new\(([^;]*?)\),\s*\}", utils)
+        if not m:
+            raise TranslateError("RcInner::alloc initial word not found")
+        ast = P(tokenize(m.group(1))).parse_expr()
+        w, _ = em.emit(ast, {'init_strong': 'u32'}, 'u64')
+        s += "Definition alloc_word (init_strong : Z) : Z :=\n  %s.\n" % w
+        files['StateW.v'] = s
+    except TranslateError as ex:
+        failed['StateW.v'] = str(ex)
+    except (NameError, KeyError, UnboundLocalError) as ex:
+        failed['StateW.v'] = 'depends on a part of the source that could not be translated (%s)' % ex
     # ---------------- ModularW.v
-    mo_fns = get_fns(get_impl(utils, r"impl<const WIDTH: u32>\s+Modular<WIDTH>"))
-    sigs = {n: (v[0], v[1]) for n, v in mo_fns.items()}
-    emm = Emitter({'WIDTH': 'u32'}, sigs, 'isize', ['max'], extra_params=['WIDTH'], fn_prefix='m_')
-    emm.all_consts.update({c[0]: (c[1], c[2]) for c in uc if c[0] not in NEEDED})
-    s = HEADER % "src/utils.rs (impl Modular)" + "Require Import Params.\n\n"
-    s += translate_fns(mo_fns, ['new', 'trans', 'inver', 'max', 'le'], emm, None) + "\n"
-    files['ModularW.v'] = s
-
+    try:
+        mo_fns = get_fns(get_impl(utils, r"impl<const WIDTH: u32>\s+Modular<WIDTH>"))
+        sigs = {n: (v[0], v[1]) for n, v in mo_fns.items()}
+        emm = Emitter({'WIDTH': 'u32'}, sigs, 'isize', ['max'], extra_params=['WIDTH'], fn_prefix='m_')
+        emm.all_consts.update({c[0]: (c[1], c[2]) for c in uc if c[0] not in NEEDED})
+        s = HEADER % "src/utils.rs (impl Modular)" + "Require Import Params.\n\n"
+        s += translate_fns(mo_fns, ['new', 'trans', 'inver', 'max', 'le'], emm, None) + "\n"
+        files['ModularW.v'] = s
+    except TranslateError as ex:
+        failed['ModularW.v'] = str(ex)
+    except (NameError, KeyError, UnboundLocalError) as ex:
+        failed['ModularW.v'] = 'depends on a part of the source that could not be translated (%s)' % ex
     # ---------------- DisposeW.v : decision expressions of dispose_general_node + increments
-    m = re.search(r"unsafe fn dispose_general_node<[^{]*\{", utils)
-    if not m:
-        raise TranslateError("dispose_general_node not found")
-    dend = find_matching(utils, m.end() - 1)
-    body = utils[m.end():dend]
+    try:
+        m = re.search(r"unsafe fn dispose_general_node<[^{]*\{", utils)
+        if not m:
+            raise TranslateError("dispose_general_node not found")
+        dend = find_matching(utils, m.end() - 1)
+        body = utils[m.end():dend]
 
-    def one(pattern, what):
-        mm = re.search(pattern, body, re.S)
-        if not mm:
-            raise TranslateError("dispose_general_node: pattern for %s not found" % what)
-        return mm
+        def one(pattern, what):
+            mm = re.search(pattern, body, re.S)
+            if not mm:
+                raise TranslateError("dispose_general_node: pattern for %s not found" % what)
+            return mm
 
-    m_modu = one(r"let\s+modu\s*:\s*Modular<(\w+)>\s*=\s*Modular::new\(([^;]*)\);", "Modular::new")
-    m_cond = one(r"if\s+(depth == 0 \|\| )?modu\.le\(([^,]*),([^)]*)\)\s*\{", "modu.le")
-    m_max = one(r"modu\.max\(&\[([^\]]*)\]\)", "modu.max")
-    m_cap = one(r"if\s+depth\s*>=\s*((?:\w+\s*::\s*)*\w+)\s*\{", "depth cap")
-    m_rep = one(r"if\s+count\s*%\s*((?:\w+\s*::\s*)*\w+)\s*==\s*0", "repin interval")
-    if m_cond.group(1) is None:
-        root_always = 'false'
-    else:
-        root_always = 'true'
-    emd = Emitter({'EPOCH_WIDTH': 'u32'}, {}, 'isize', [])
-    register_consts(emd, [c for c in uc if c[0] not in NEEDED])
-    # immutable locals of the function that only name an expression over the values the model knows
-    # (e.g. `let newest = curr_epoch as isize + 1;`) are inlined into the extracted expressions
-    for lm in re.finditer(r"let\s+(\w+)\s*(?::\s*[\w<>]+\s*)?=\s*([^;{}]+);", body):
-        if lm.group(1) not in ('next_epoch', 'modu', 'curr_epoch', 'node_epoch', 'link_epoch', 'child_epoch') and \
-                len(re.findall(r"let\s+(?:mut\s+)?%s\b" % lm.group(1), body)) == 1:
-            emd.lazy_lets[lm.group(1)] = lm.group(2)
-    envd = {'curr_epoch': 'usize', 'node_epoch': 'u32', 'link_epoch': 'u32', 'child_epoch': 'u32'}
-    width = m_modu.group(1)
-    if width not in [c[0] for c in uc]:
-        raise TranslateError("Modular width const %s unknown" % width)
-    mx, _ = emd.emit(P(tokenize(m_modu.group(2))).parse_expr(), envd, 'isize')
-    la, _ = emd.emit(P(tokenize(m_cond.group(2))).parse_expr(), envd, 'isize')
-    lb, _ = emd.emit(P(tokenize(m_cond.group(3))).parse_expr(), envd, 'isize')
-    maxargs = [x.strip() for x in split_top(m_max.group(1)) if x.strip()]
-    margs = []
-    for a in maxargs:
-        a2 = a.replace('cnt_curr.epoch()', 'child_epoch')
-        sa, _ = emd.emit(P(tokenize(a2)).parse_expr(), envd, 'isize')
-        margs.append(sa)
-    s = HEADER % "src/utils.rs (dispose_general_node, increment paths)" + "Require Import Params StateW ModularW.\n\n"
-    m_age = re.fullmatch(r"\s*curr_epoch as isize - ((?:\w+\s*::\s*)*\w+)\s*", m_cond.group(3))
-    if not m_age:
-        raise TranslateError("reclaim threshold has an unexpected shape: %s" % m_cond.group(3))
-    s += "Definition RECLAIM_AGE : Z := %s.\n" % resolve_int(m_age.group(1), emd, 'isize', "reclaim threshold")
-    s += "Definition DEPTH_CAP : Z := %s.\n" % resolve_int(m_cap.group(1), emd, 'usize', "depth cap")
-    s += "Definition REPIN_EVERY : Z := %s.\n" % resolve_int(m_rep.group(1), emd, 'usize', "repin interval")
-    s += "Definition ROOT_ALWAYS : bool := %s.\n" % root_always
-    s += "Definition modu_max_of (curr_epoch : Z) : Z := %s.\n" % mx
-    s += "(* `modu.le(%s, %s)` of the reclaim-now test *)\n" % (m_cond.group(2).strip(), m_cond.group(3).strip())
-    s += "Definition reclaim_now (curr_epoch node_epoch : Z) : bool :=\n  m_le %s (modu_max_of curr_epoch) %s %s.\n" % (width, la, lb)
-    s += "(* `modu.max(&[%s])` : the stamp written into a child *)\n" % m_max.group(1).strip()
-    s += "Definition merged (curr_epoch node_epoch link_epoch child_epoch : Z) : Z :=\n  m_max %s (modu_max_of curr_epoch) [%s].\n" % (width, "; ".join(margs))
-    s += "Definition dispose_here (depth curr_epoch node_epoch : Z) : bool :=\n  (ROOT_ALWAYS && (depth =? 0)) || reclaim_now curr_epoch node_epoch.\n"
-    # the stamp actually written: the maximum, optionally clamped (repair of finding D13)
-    m_clamp = re.search(r"let\s+next_epoch\s*=\s*if\s+modu\.le\(\s*next_epoch\s*,([^)]*)\)\s*\{\s*next_epoch\s*\}\s*else\s*\{([^}]*)\}\s*;", body, re.S)
-    if m_clamp:
-        cb, _ = emd.emit(P(tokenize(m_clamp.group(1))).parse_expr(), envd, 'isize')
-        ca, _ = emd.emit(P(tokenize(m_clamp.group(2))).parse_expr(), envd, 'isize')
-        s += "(* `if modu.le(next_epoch, %s) { next_epoch } else { %s }` *)\n" % (m_clamp.group(1).strip(), " ".join(m_clamp.group(2).split()))
-        s += "Definition STAMP_CLAMPED : bool := true.\n"
-        s += ("Definition child_stamp (curr_epoch node_epoch link_epoch child_epoch : Z) : Z :=\n"
-              "  let next_epoch := merged curr_epoch node_epoch link_epoch child_epoch in\n"
-              "  if m_le %s (modu_max_of curr_epoch) next_epoch %s then next_epoch else %s.\n" % (width, cb, ca))
-    else:
-        if len(re.findall(r"let\s+next_epoch\s*=", body)) != 1:
-            raise TranslateError("dispose_general_node: next_epoch is rebound in a way the translator does not know")
-        s += "Definition STAMP_CLAMPED : bool := false.\n"
-        s += ("Definition child_stamp (curr_epoch node_epoch link_epoch child_epoch : Z) : Z :=\n"
-              "  merged curr_epoch node_epoch link_epoch child_epoch.\n")
-    files['DisposeW.v'] = s
-
+        m_modu = one(r"let\s+modu\s*:\s*Modular<(\w+)>\s*=\s*Modular::new\(([^;]*)\);", "Modular::new")
+        m_cond = one(r"if\s+(depth == 0 \|\| )?modu\.le\(([^,]*),([^)]*)\)\s*\{", "modu.le")
+        m_max = one(r"modu\.max\(&\[([^\]]*)\]\)", "modu.max")
+        m_cap = one(r"if\s+depth\s*>=\s*((?:\w+\s*::\s*)*\w+)\s*\{", "depth cap")
+        m_rep = one(r"if\s+count\s*%\s*((?:\w+\s*::\s*)*\w+)\s*==\s*0", "repin interval")
+        if m_cond.group(1) is None:
+            root_always = 'false'
+        else:
+            root_always = 'true'
+        emd = Emitter({'EPOCH_WIDTH': 'u32'}, {}, 'isize', [])
+        register_consts(emd, [c for c in uc if c[0] not in NEEDED])
+        # immutable locals of the function that only name an expression over the values the model knows
+        # (e.g. `let newest = curr_epoch as isize + 1;`) are inlined into the extracted expressions
+        for lm in re.finditer(r"let\s+(\w+)\s*(?::\s*[\w<>]+\s*)?=\s*([^;{}]+);", body):
+            if lm.group(1) not in ('next_epoch', 'modu', 'curr_epoch', 'node_epoch', 'link_epoch', 'child_epoch') and \
+                    len(re.findall(r"let\s+(?:mut\s+)?%s\b" % lm.group(1), body)) == 1:
+                emd.lazy_lets[lm.group(1)] = lm.group(2)
+        envd = {'curr_epoch': 'usize', 'node_epoch': 'u32', 'link_epoch': 'u32', 'child_epoch': 'u32'}
+        width = m_modu.group(1)
+        if width not in [c[0] for c in uc]:
+            raise TranslateError("Modular width const %s unknown" % width)
+        mx, _ = emd.emit(P(tokenize(m_modu.group(2))).parse_expr(), envd, 'isize')
+        la, _ = emd.emit(P(tokenize(m_cond.group(2))).parse_expr(), envd, 'isize')
+        lb, _ = emd.emit(P(tokenize(m_cond.group(3))).parse_expr(), envd, 'isize')
+        maxargs = [x.strip() for x in split_top(m_max.group(1)) if x.strip()]
+        margs = []
+        for a in maxargs:
+            a2 = a.replace('cnt_curr.epoch()', 'child_epoch')
+            sa, _ = emd.emit(P(tokenize(a2)).parse_expr(), envd, 'isize')
+            margs.append(sa)
+        s = HEADER % "src/utils.rs (dispose_general_node, increment paths)" + "Require Import Params StateW ModularW.\n\n"
+        m_age = re.fullmatch(r"\s*curr_epoch as isize - ((?:\w+\s*::\s*)*\w+)\s*", m_cond.group(3))
+        if not m_age:
+            raise TranslateError("reclaim threshold has an unexpected shape: %s" % m_cond.group(3))
+        s += "Definition RECLAIM_AGE : Z := %s.\n" % resolve_int(m_age.group(1), emd, 'isize', "reclaim threshold")
+        s += "Definition DEPTH_CAP : Z := %s.\n" % resolve_int(m_cap.group(1), emd, 'usize', "depth cap")
+        s += "Definition REPIN_EVERY : Z := %s.\n" % resolve_int(m_rep.group(1), emd, 'usize', "repin interval")
+        s += "Definition ROOT_ALWAYS : bool := %s.\n" % root_always
+        s += "Definition modu_max_of (curr_epoch : Z) : Z := %s.\n" % mx
+        s += "(* `modu.le(%s, %s)` of the reclaim-now test *)\n" % (m_cond.group(2).strip(), m_cond.group(3).strip())
+        s += "Definition reclaim_now (curr_epoch node_epoch : Z) : bool :=\n  m_le %s (modu_max_of curr_epoch) %s %s.\n" % (width, la, lb)
+        s += "(* `modu.max(&[%s])` : the stamp written into a child *)\n" % m_max.group(1).strip()
+        s += "Definition merged (curr_epoch node_epoch link_epoch child_epoch : Z) : Z :=\n  m_max %s (modu_max_of curr_epoch) [%s].\n" % (width, "; ".join(margs))
+        s += "Definition dispose_here (depth curr_epoch node_epoch : Z) : bool :=\n  (ROOT_ALWAYS && (depth =? 0)) || reclaim_now curr_epoch node_epoch.\n"
+        # the stamp actually written: the maximum, optionally clamped (repair of finding D13)
+        m_clamp = re.search(r"let\s+next_epoch\s*=\s*if\s+modu\.le\(\s*next_epoch\s*,([^)]*)\)\s*\{\s*next_epoch\s*\}\s*else\s*\{([^}]*)\}\s*;", body, re.S)
+        if m_clamp:
+            cb, _ = emd.emit(P(tokenize(m_clamp.group(1))).parse_expr(), envd, 'isize')
+            ca, _ = emd.emit(P(tokenize(m_clamp.group(2))).parse_expr(), envd, 'isize')
+            s += "(* `if modu.le(next_epoch, %s) { next_epoch } else { %s }` *)\n" % (m_clamp.group(1).strip(), " ".join(m_clamp.group(2).split()))
+            s += "Definition STAMP_CLAMPED : bool := true.\n"
+            s += ("Definition child_stamp (curr_epoch node_epoch link_epoch child_epoch : Z) : Z :=\n"
+                  "  let next_epoch := merged curr_epoch node_epoch link_epoch child_epoch in\n"
+                  "  if m_le %s (modu_max_of curr_epoch) next_epoch %s then next_epoch else %s.\n" % (width, cb, ca))
+        else:
+            if len(re.findall(r"let\s+next_epoch\s*=", body)) != 1:
+                raise TranslateError("dispose_general_node: next_epoch is rebound in a way the translator does not know")
+            s += "Definition STAMP_CLAMPED : bool := false.\n"
+            s += ("Definition child_stamp (curr_epoch node_epoch link_epoch child_epoch : Z) : Z :=\n"
+                  "  merged curr_epoch node_epoch link_epoch child_epoch.\n")
+        files['DisposeW.v'] = s
+    except TranslateError as ex:
+        failed['DisposeW.v'] = str(ex)
+    except (NameError, KeyError, UnboundLocalError) as ex:
+        failed['DisposeW.v'] = 'depends on a part of the source that could not be translated (%s)' % ex
     # ---------------- TaggedW.v
-    tg_fns = get_fns(get_impl(pointers, r"impl<T>\s+Tagged<T>"))
-    free = get_fns(cut_impls(pointers))
-    for need in ('low_bits', 'with_tag'):
-        if need not in free:
-            raise TranslateError("free function %s not found in pointers.rs" % need)
-    # free functions first (prefix f_), then the impl
-    fsigs = {'low_bits': (free['low_bits'][0], free['low_bits'][1])}
-    emf = Emitter({'HIGH_TAG_WIDTH': 'u32'}, fsigs, 'ptr', ['ptr'], extra_params=['k'], fn_prefix='f_')
-    s = HEADER % "src/ebr_impl/pointers.rs (impl Tagged, low_bits, with_tag)" + "Require Import Params.\n\n"
-    s += "(* every function takes k = align_of::<T>().trailing_zeros() as its first argument *)\n"
-    s += translate_fns({'low_bits': free['low_bits']}, ['low_bits'], emf, None) + "\n\n"
-    # free with_tag: rename to avoid the clash with the method
-    emf2 = Emitter({'HIGH_TAG_WIDTH': 'u32'}, fsigs, 'ptr', ['ptr'], extra_params=['k'], fn_prefix='f_')
-    s += translate_fns({'with_tag': free['with_tag']}, ['with_tag'], emf2, None) + "\n\n"
+    try:
+        tg_fns = get_fns(get_impl(pointers, r"impl<T>\s+Tagged<T>"))
+        free = get_fns(cut_impls(pointers))
+        for need in ('low_bits', 'with_tag'):
+            if need not in free:
+                raise TranslateError("free function %s not found in pointers.rs" % need)
+        # free functions first (prefix f_), then the impl
+        fsigs = {'low_bits': (free['low_bits'][0], free['low_bits'][1])}
+        emf = Emitter({'HIGH_TAG_WIDTH': 'u32'}, fsigs, 'ptr', ['ptr'], extra_params=['k'], fn_prefix='f_')
+        s = HEADER % "src/ebr_impl/pointers.rs (impl Tagged, low_bits, with_tag)" + "Require Import Params.\n\n"
+        s += "(* every function takes k = align_of::<T>().trailing_zeros() as its first argument *)\n"
+        s += translate_fns({'low_bits': free['low_bits']}, ['low_bits'], emf, None) + "\n\n"
+        # free with_tag: rename to avoid the clash with the method
+        emf2 = Emitter({'HIGH_TAG_WIDTH': 'u32'}, fsigs, 'ptr', ['ptr'], extra_params=['k'], fn_prefix='f_')
+        s += translate_fns({'with_tag': free['with_tag']}, ['with_tag'], emf2, None) + "\n\n"
 
-    class TaggedEmitter(Emitter):
-        def emit_call(self, e, env, expected):
-            f, args = e[1], e[2]
-            if f[0] == 'path' and f[1] == ['low_bits']:
-                return ("(f_low_bits k)", 'usize')
-            if f[0] == 'path' and f[1] == ['with_tag']:
-                a, _ = self.emit(args[0], env, 'ptr')
-                b, _ = self.emit(args[1], env, 'usize')
-                return ("(f_with_tag k %s %s)" % (a, b), 'ptr')
-            return Emitter.emit_call(self, e, env, expected)
+        class TaggedEmitter(Emitter):
+            def emit_call(self, e, env, expected):
+                f, args = e[1], e[2]
+                if f[0] == 'path' and f[1] == ['low_bits']:
+                    return ("(f_low_bits k)", 'usize')
+                if f[0] == 'path' and f[1] == ['with_tag']:
+                    a, _ = self.emit(args[0], env, 'ptr')
+                    b, _ = self.emit(args[1], env, 'usize')
+                    return ("(f_with_tag k %s %s)" % (a, b), 'ptr')
+                return Emitter.emit_call(self, e, env, expected)
 
-    sigs = {n: (v[0], v[1]) for n, v in tg_fns.items()}
-    emt = TaggedEmitter({'HIGH_TAG_WIDTH': 'u32'}, sigs, 'ptr', ['ptr'], extra_params=['k'], fn_prefix='t_')
-    emt.all_consts.update({c[0]: (c[1], c[2]) for c in get_consts(pointers) if c[0] != 'HIGH_TAG_WIDTH'})
-    order = ['high_bits_pos', 'high_bits', 'null', 'tag', 'high_tag', 'as_raw', 'is_null', 'with_tag',
-             'with_high_tag', 'ptr_eq']
-    s += translate_fns(tg_fns, order, emt, None) + "\n"
-    files['TaggedW.v'] = s
-
+        sigs = {n: (v[0], v[1]) for n, v in tg_fns.items()}
+        emt = TaggedEmitter({'HIGH_TAG_WIDTH': 'u32'}, sigs, 'ptr', ['ptr'], extra_params=['k'], fn_prefix='t_')
+        emt.all_consts.update({c[0]: (c[1], c[2]) for c in get_consts(pointers) if c[0] != 'HIGH_TAG_WIDTH'})
+        order = ['high_bits_pos', 'high_bits', 'null', 'tag', 'high_tag', 'as_raw', 'is_null', 'with_tag',
+                 'with_high_tag', 'ptr_eq']
+        s += translate_fns(tg_fns, order, emt, None) + "\n"
+        files['TaggedW.v'] = s
+    except TranslateError as ex:
+        failed['TaggedW.v'] = str(ex)
+    except (NameError, KeyError, UnboundLocalError) as ex:
+        failed['TaggedW.v'] = 'depends on a part of the source that could not be translated (%s)' % ex
     # ---------------- EpochW.v
-    ep_fns = get_fns(get_impl(epoch, r"impl\s+Epoch"))
-    sigs = {n: (v[0], v[1]) for n, v in ep_fns.items()}
+    try:
+        ep_fns = get_fns(get_impl(epoch, r"impl\s+Epoch"))
+        sigs = {n: (v[0], v[1]) for n, v in ep_fns.items()}
 
-    class EpochEmitter(Emitter):
-        def emit_call(self, e, env, expected):
-            f, args = e[1], e[2]
-            if f[0] == 'path' and f[1] == ['Self', 'default'] and not args:
-                return ('0', 'Self')
-            return Emitter.emit_call(self, e, env, expected)
+        class EpochEmitter(Emitter):
+            def emit_call(self, e, env, expected):
+                f, args = e[1], e[2]
+                if f[0] == 'path' and f[1] == ['Self', 'default'] and not args:
+                    return ('0', 'Self')
+                return Emitter.emit_call(self, e, env, expected)
 
-    eme = EpochEmitter({}, sigs, 'usize', ['data'], fn_prefix='e_')
-    eme.all_consts.update({c[0]: (c[1], c[2]) for c in get_consts(epoch)})
-    s = HEADER % "src/ebr_impl/epoch.rs (impl Epoch)" + "Require Import Params.\n\n"
-    s += translate_fns(ep_fns, ['starting', 'wrapping_sub', 'is_pinned', 'pinned', 'unpinned', 'successor', 'value'], eme, None) + "\n"
-    s += "\n(* SealedBag::is_expired : global_epoch.wrapping_sub(self.epoch) >= EXPIRE_AFTER *)\n"
-    s += "Definition is_expired (bag_epoch global_epoch : Z) : bool :=\n  e_wrapping_sub global_epoch bag_epoch >=? EXPIRE_AFTER.\n"
-    files['EpochW.v'] = s
-
+        eme = EpochEmitter({}, sigs, 'usize', ['data'], fn_prefix='e_')
+        eme.all_consts.update({c[0]: (c[1], c[2]) for c in get_consts(epoch)})
+        s = HEADER % "src/ebr_impl/epoch.rs (impl Epoch)" + "Require Import Params.\n\n"
+        s += translate_fns(ep_fns, ['starting', 'wrapping_sub', 'is_pinned', 'pinned', 'unpinned', 'successor', 'value'], eme, None) + "\n"
+        s += "\n(* SealedBag::is_expired : global_epoch.wrapping_sub(self.epoch) >= EXPIRE_AFTER *)\n"
+        s += "Definition is_expired (bag_epoch global_epoch : Z) : bool :=\n  e_wrapping_sub global_epoch bag_epoch >=? EXPIRE_AFTER.\n"
+        files['EpochW.v'] = s
+    except TranslateError as ex:
+        failed['EpochW.v'] = str(ex)
+    except (NameError, KeyError, UnboundLocalError) as ex:
+        failed['EpochW.v'] = 'depends on a part of the source that could not be translated (%s)' % ex
     # ---------------- OrderW.v : the memory orderings the source uses, per file and kind of atomic access.
-    # Every model is sequentially consistent; what entitles it to be is the set of orderings and fences of the
-    # source.  They are tabulated here and compared (OrderP.v) with the reference table OrderRef.v the models were
-    # written against: an access may be strengthened, never weakened or dropped.
-    ORD = ['Relaxed', 'Acquire', 'Release', 'AcqRel', 'SeqCst']
-    order_files = ['src/utils.rs', 'src/strong.rs', 'src/weak.rs', 'src/ebr_impl/internal.rs', 'src/ebr_impl/guard.rs',
-                   'src/ebr_impl/collector.rs', 'src/ebr_impl/default.rs', 'src/ebr_impl/deferred.rs',
-                   'src/ebr_impl/pointers.rs', 'src/ebr_impl/epoch.rs', 'src/ebr_impl/sync/queue.rs',
-                   'src/ebr_impl/sync/list.rs', 'src/ebr_impl/sync/once_lock.rs']
-    rows = []
-    for rel in order_files:
-        try:
-            src = rd(rel)
-        except OSError:
-            raise TranslateError("source file %s not found" % rel)
-        # instrumentation is not part of the library
-        src = re.sub(r"#\[cfg\(circ_verif\)\][^\n]*\n[^\n]*", "", src)
-        src = re.sub(r'"(?:[^"\\]|\\.)*"', '""', src)
-        table = {}
-        for mo in re.finditer(r"\b(Relaxed|Acquire|Release|AcqRel|SeqCst)\b", src):
-            pos = mo.start()
-            pre = src[max(0, pos - 12):pos]
-            if re.search(r"\buse\b[^;]*$", src[max(0, src.rfind(';', 0, pos)):pos]) or re.search(r"\buse\b[^;]*$", src[max(0, src.rfind('}', 0, pos)):pos]) and ';' not in src[src.rfind('}', 0, pos):pos]:
-                continue    # `use core::sync::atomic::Ordering::{...};`
-            # innermost enclosing call
-            depth, i, commas = 0, pos - 1, 0
-            ident = 'none'
-            while i >= 0:
-                ch = src[i]
-                if ch in ')]}':
-                    depth += 1
-                elif ch in '([{':
-                    if depth == 0:
-                        if ch == '(':
-                            mi = re.search(r"(\w+)\s*(?:::\s*<[^()]*>\s*)?$", src[:i])
-                            ident = mi.group(1) if mi else 'none'
-                        else:
-                            ident = 'none'
+    try:
+        # Every model is sequentially consistent; what entitles it to be is the set of orderings and fences of the
+        # source.  They are tabulated here and compared (OrderP.v) with the reference table OrderRef.v the models were
+        # written against: an access may be strengthened, never weakened or dropped.
+        ORD = ['Relaxed', 'Acquire', 'Release', 'AcqRel', 'SeqCst']
+        order_files = ['src/utils.rs', 'src/strong.rs', 'src/weak.rs', 'src/ebr_impl/internal.rs', 'src/ebr_impl/guard.rs',
+                       'src/ebr_impl/collector.rs', 'src/ebr_impl/default.rs', 'src/ebr_impl/deferred.rs',
+                       'src/ebr_impl/pointers.rs', 'src/ebr_impl/epoch.rs', 'src/ebr_impl/sync/queue.rs',
+                       'src/ebr_impl/sync/list.rs', 'src/ebr_impl/sync/once_lock.rs']
+        rows = []
+        for rel in order_files:
+            try:
+                src = rd(rel)
+            except OSError:
+                raise TranslateError("source file %s not found" % rel)
+            # instrumentation is not part of the library
+            src = re.sub(r"#\[cfg\(circ_verif\)\][^\n]*\n[^\n]*", "", src)
+            src = re.sub(r'"(?:[^"\\]|\\.)*"', '""', src)
+            table = {}
+            for mo in re.finditer(r"\b(Relaxed|Acquire|Release|AcqRel|SeqCst)\b", src):
+                pos = mo.start()
+                pre = src[max(0, pos - 12):pos]
+                if re.search(r"\buse\b[^;]*$", src[max(0, src.rfind(';', 0, pos)):pos]) or re.search(r"\buse\b[^;]*$", src[max(0, src.rfind('}', 0, pos)):pos]) and ';' not in src[src.rfind('}', 0, pos):pos]:
+                    continue    # `use core::sync::atomic::Ordering::{...};`
+                # innermost enclosing call
+                depth, i, commas = 0, pos - 1, 0
+                ident = 'none'
+                while i >= 0:
+                    ch = src[i]
+                    if ch in ')]}':
+                        depth += 1
+                    elif ch in '([{':
+                        if depth == 0:
+                            if ch == '(':
+                                mi = re.search(r"(\w+)\s*(?:::\s*<[^()]*>\s*)?$", src[:i])
+                                ident = mi.group(1) if mi else 'none'
+                            else:
+                                ident = 'none'
+                            break
+                        depth -= 1
+                    elif ch == ',' and depth == 0:
+                        commas += 1
+                    elif ch == ';' and depth == 0:
                         break
-                    depth -= 1
-                elif ch == ',' and depth == 0:
-                    commas += 1
-                elif ch == ';' and depth == 0:
-                    break
-                i -= 1
-            key = "%s#%d" % (ident, commas)
-            table.setdefault(key, [0] * 5)[ORD.index(mo.group(1))] += 1
-        for key in sorted(table):
-            rows.append((rel, key, table[key]))
-    s = HEADER % "the atomic accesses of src/**/*.rs (orderings per file and kind of access)"
-    s += "From Coq Require Import String.\nLocal Open Scope string_scope.\n\n"
-    s += "(* (file, method#argument position, [Relaxed; Acquire; Release; AcqRel; SeqCst] occurrence counts) *)\n"
-    s += "Definition order_table : list (string * string * list Z) :=\n  [ "
-    s += ";\n    ".join('("%s", "%s", [%s])' % (f, k, "; ".join(str(c) for c in cs)) for f, k, cs in rows)
-    s += " ].\n"
-    files['OrderW.v'] = s
-    return files
+                    i -= 1
+                key = "%s#%d" % (ident, commas)
+                table.setdefault(key, [0] * 5)[ORD.index(mo.group(1))] += 1
+            for key in sorted(table):
+                rows.append((rel, key, table[key]))
+        s = HEADER % "the atomic accesses of src/**/*.rs (orderings per file and kind of access)"
+        s += "From Coq Require Import String.\nLocal Open Scope string_scope.\n\n"
+        s += "(* (file, method#argument position, [Relaxed; Acquire; Release; AcqRel; SeqCst] occurrence counts) *)\n"
+        s += "Definition order_table : list (string * string * list Z) :=\n  [ "
+        s += ";\n    ".join('("%s", "%s", [%s])' % (f, k, "; ".join(str(c) for c in cs)) for f, k, cs in rows)
+        s += " ].\n"
+        files['OrderW.v'] = s
+    except TranslateError as ex:
+        failed['OrderW.v'] = str(ex)
+    except (NameError, KeyError, UnboundLocalError) as ex:
+        failed['OrderW.v'] = 'depends on a part of the source that could not be translated (%s)' % ex
+    return files, failed
 
 
 def main():
@@ -1197,10 +1230,14 @@ def main():
         elif a == '--out':
             out = args.pop(0)
     try:
-        files = gen(repo)
+        files, failed = gen(repo)
     except TranslateError as ex:
         sys.stderr.write("rs2v: TRANSLATION FAILED: %s\n" % ex)
         return 2
+    # a file that cannot be regenerated keeps its last good content; the caller decides whether the property at hand
+    # depends on it (exit code 3 + one FAILED line per file)
+    for name, msg in sorted(failed.items()):
+        sys.stderr.write("rs2v: TRANSLATION FAILED %s: %s\n" % (name, msg))
     os.makedirs(out, exist_ok=True)
     changed = []
     for name, content in files.items():
@@ -1214,7 +1251,7 @@ def main():
                 f.write(content)
             changed.append(name)
     print("rs2v: %d files, changed: %s" % (len(files), ",".join(changed) or "none"))
-    return 0
+    return 3 if failed else 0
 
 
 if __name__ == '__main__':
